@@ -5,7 +5,7 @@ COMMON_ASSUME = [
 ]
 PROPS = {
     "C03": {
-        "suites": ["c03", "scope-c04", "c20cache"],
+        "suites": ["c03", "scope-c04", "c20cache", "allocfault"],
         "assumptions": COMMON_ASSUME + [
             "sort.Sort returns a permutation sorted by Less (modelled by merge sort; theorems hold for the sorted permutation)",
             "float64 comparison is IEEE-754 (modelled on bit patterns through a sign-magnitude key)",
@@ -21,7 +21,7 @@ PROPS = {
         "trusted_base": ["sync.Pool buffer recycling is not modelled; its independence is exercised by 16 concurrent goroutines per 40th case"],
     },
     "C01": {
-        "suites": ["c01", "c01race", "scope-c07seq", "c08sched"],
+        "suites": ["c01", "c01race", "scope-c07seq", "c08sched", "allocfault", "c09sub"],
         "assumptions": COMMON_ASSUME + [
             "a report pass reaches a counter only through counter.report / cachedReport / histogram.report (tie facts), so 'visit' = swap then optional reporter call",
             "lifting from one cell to 'per name and tags': a pass visits each registered counter once (C04/C07 cover registration and naming)",
@@ -30,7 +30,7 @@ PROPS = {
         "timeout": {"quick": 300, "thorough": 3000},
     },
     "C02": {
-        "suites": ["c02", "c02race", "c02stale", "scope-c05"],
+        "suites": ["c02", "c02race", "c02stale", "scope-c05", "allocfault"],
         "assumptions": COMMON_ASSUME + [
             "one updating goroutine per gauge (the property's quantifier); reading the value and calling the reporter are separate steps of the model (the recording reporter's entry is a schedule point of the correspondence check); sync.Mutex gives mutual exclusion between the visits of one gauge (repair D13)",
         ],
@@ -51,7 +51,7 @@ PROPS = {
         "timeout": {"quick": 300, "thorough": 1500},
     },
     "C05": {
-        "suites": ["scope-c05"],
+        "suites": ["scope-c05", "c09sub"],
         "assumptions": COMMON_ASSUME + [
             "a Go map is an association list with distinct keys enumerated in arbitrary order (key_order_independent quantifies over the order)",
             "the registry shard of a request is a function of its raw key (maphash with a per-root seed); the harness observes it through a shim and the model takes it as an input",
@@ -96,7 +96,7 @@ PROPS = {
         "trusted_base": ["vendored thrift compact/binary protocol writers and the generated ttypes.go are modelled by hand (Tally/Model/Thrift.lean) and tied by byte-for-byte differential only"],
     },
     "C07": {
-        "suites": ["c07lock", "c07conc", "scope-c07seq"],
+        "suites": ["c07lock", "c07conc", "scope-c07seq", "c09sub"],
         "assumptions": COMMON_ASSUME + [
             "Model.Registry models one shard and one counter per scope (counters of one scope do not interact); keys are raw spellings with an arbitrary idempotent sanitizer on keys as a parameter, a scope is registered under its sanitized key and under the raw keys that asked for it, exactly as registry.Subscope does; raw and sanitized key of one request live in the same shard in the code (the shard is chosen by the raw key), several shards are covered sequentially by Model.Scope",
             "lock-protected regions without a schedule point are single atomic steps; Go's RWMutex gives mutual exclusion and no lock is taken recursively",
@@ -116,7 +116,7 @@ PROPS = {
         "timeout": {"quick": 400, "thorough": 3600},
     },
     "C09": {
-        "suites": ["c09", "c09sub", "c20cache", "scope-c07seq"],
+        "suites": ["c09", "c09sub", "c20cache", "scope-c07seq", "allocfault"],
         "assumptions": COMMON_ASSUME + [
             "data-race freedom in the sense of the Go memory model is not expressible in the interleaving model; it is supported by -race runs only",
             "a parked thread holds no lock between the read-locked probe and the write lock (tie facts)",
@@ -161,7 +161,7 @@ PROPS = {
         "trusted_base": ["Model.Scope is tied to scope.go / scope_registry.go by the differential on random programs (plus the facts on fullyQualifiedName and the report call)"],
     },
     "C10": {
-        "suites": ["scope-c10", "c10instr", "c10race"],
+        "suites": ["scope-c10", "c10instr", "c10race", "allocfault"],
         "assumptions": COMMON_ASSUME + [
             "Model.Scope is sequential: one API call at a time (concurrency of these paths is C01/C02/C07/C09)",
             "the registry shard of a request is observed through a shim and given to the model as an input",
